@@ -375,6 +375,7 @@ VARIANTS["C04"] += [
       "forced NP2.1 re-run appends the LF band behind the previous one"),
 ]
 
+
 # ------------------------------------------------------------------------------------------------ C12
 VARIANTS["C12"] = [
     V("window-lookahead-carried-chunk", "fire", NP, [('        for first, last in wg.firstlast:\n            first = first + offset\n            last = last + offset\n\n            chunk_lf = self.extract_lfp(self.sr[first:last, : self.napch].T)\n            chunk_lf_sync = self.extract_lfp_sync(\n                self.sr[first:last, self.idxsyncch:].T\n            )\n\n            chunk_lf2save = self._ind2save(\n                chunk_lf, chunk_lf_sync, wg, ratio=self.ratio, etype="lf"\n            )\n\n            self._split2shanks(chunk_lf2save, etype="lf")\n', '        pending = None\n        for first, last in wg.firstlast:\n            ahead = self.sr[first + offset:last + offset, :].T\n            if pending is not None:\n                chunk_lf2save = self._ind2save(\n                    self.extract_lfp(pending[: self.napch]), self.extract_lfp_sync(pending[self.idxsyncch:]), wg, ratio=self.ratio, etype="lf"\n                )\n                self._split2shanks(chunk_lf2save, etype="lf")\n            pending = ahead\n        chunk_lf2save = self._ind2save(\n            self.extract_lfp(pending[: self.napch]), self.extract_lfp_sync(pending[self.idxsyncch:]), wg, ratio=self.ratio, etype="lf"\n        )\n        self._split2shanks(chunk_lf2save, etype="lf")\n')], ("D5",),
@@ -623,6 +624,7 @@ VARIANTS["C05"] = [
 
 # ------------------------------------------------------------------------------------------------ C13
 VARIANTS["C13"] = [
+    V("last-chunk-end-not-set", "fire", WE, [("    s1_arr[-1] = sr.ns\n", "")], ("D3",), "the last chunk keeps s0 + chunksize: beyond ns here, but after any trimming of the grid the tail is uncovered"),
     V("margin-test-subtracts-on-unsigned", "fire", WE, [("    allowed_idx = (spike_samples > trough_offset) & (", "    allowed_idx = (spike_samples - trough_offset > 0) & (")], ("D6",),
       "same test for signed times; wraps for uint64 spike times in the first samples"),
     V("twin-margin-test-signed-cast", "twin", WE, [("    allowed_idx = (spike_samples > trough_offset) & (", "    allowed_idx = (spike_samples.astype(np.int64) - trough_offset > 0) & (")], (), ""),
@@ -674,6 +676,12 @@ VARIANTS["C14"] = [
         "    idx_over = np.where(idx_all >= arr_peak.shape[1])[0]\n    if len(idx_over) > 0:\n        # Todo should this raise a warning ?\n        idx_all[idx_over] = arr_peak.shape[1] - 1  # Take the last value of the waveform\n",
         "    idx_all = np.minimum(idx_all, arr_peak.shape[1] - 1)\n")], (), ""),
     V("twin-clamp-gt-minus-one", "twin", WF, [("    idx_over = np.where(idx_all >= arr_peak.shape[1])[0]\n", "    idx_over = np.where(idx_all > arr_peak.shape[1] - 1)[0]\n")], (), ""),
+]
+
+VARIANTS["C14"] += [
+    V("caller-labels-with-label-writeback", "fire", WF, [("def find_peak(arr_in):\n", "def find_peak(arr_in, index=None):\n"),
+                                                          ("    df = pd.DataFrame()\n    df[\"peak_trace_idx\"]", "    df = pd.DataFrame(index=index)\n    df[\"peak_trace_idx\"]")], ("D7",),
+      "non-unique caller labels + df.loc write-back: sibling rows are overwritten"),
 ]
 
 # ------------------------------------------------------------------------------------------------ C06
